@@ -111,3 +111,18 @@ for sid, text in needs4.items():
     if os.path.exists(f):
         m = json.load(open(f)); m["needs_to_manifest"] = text; json.dump(m, open(f, "w"), indent=1, ensure_ascii=False)
 print("ok4")
+needs5 = {
+ "C10t-1": "disk history (CLI only): writefile without truncation; a longer earlier report at the output path leaves its tail",
+ "C10t-2": "I/O behaviour (CLI only): readfile's 64 KiB block loop stops at the first incomplete block; a short read before end of file silently drops the rest of the input",
+ "C16t-1": "fault at a particular point (CLI only): readfile fills st_size bytes with a loop that does not handle a zero-byte read; a file that ends before its announced size makes the program spin forever",
+ "C16t-2": "option value (CLI only): a -L pre-scan with std::env::args() panics on the first argument that is not valid Unicode, before clap's StrictUtf8 can refuse it",
+ "C17t-1": "I/O fault (CLI only): BufWriter dropped without flush; a write error on an output under 8 KiB is ignored: empty or truncated file, exit 0",
+ "C17t-2": "order of operations (CLI only): the DHW indicator is added after --json/--xml are written; the JSON has misc: null while --txt reports the percentage",
+ "C18t-1": "fault at a particular point (CLI only): readfile reads lines with map_while(Result::ok); a read error or an invalid byte part-way ends the input silently and a smaller building is evaluated with exit 0",
+ "C18t-2": "option/metadata combination (CLI only): CTE_RED1/CTE_RED2 metadata written with 2 decimals; the saved components file overrides the 3-decimal factors of the saved factor file on re-evaluation",
+}
+for sid, text in needs5.items():
+    f = "/verif/seeded/%s/meta.json" % sid
+    if os.path.exists(f):
+        m = json.load(open(f)); m["needs_to_manifest"] = text; json.dump(m, open(f, "w"), indent=1, ensure_ascii=False)
+print("ok5")
